@@ -12,7 +12,7 @@
 From Coq Require Import List Arith.
 Import ListNotations.
 From BC Require Import Conc.Lin Conc.StoreLTS Conc.StoreSafe Conc.StoreLin Conc.StoreLive.
-From BC Require Conc.MergeLTS Conc.MergeSafe Conc.RollLTS Conc.RollSafe.
+From BC Require Conc.MergeLTS Conc.MergeSafe Conc.RollLTS Conc.RollSafe Conc.RollLin.
 From Coq Require Import Lia.
 
 (* 1. No schedule makes any thread panic: whatever the interleaving and however the bytes of a record
@@ -99,6 +99,19 @@ Theorem C04_writer_never_blocked : forall es s, RollLTS.rrun true RollLTS.rinit 
   end.
 Proof. exact RollSafe.writer_never_blocked. Qed.
 Print Assumptions C04_writer_never_blocked.
+
+(* 9b. ... and every schedule of that model is linearizable: the monitor of Conc/Lin.v accepts its history (puts
+       commit when the index entry is published, after the rollover; gets at the lookup), so the commit order
+       replays from the empty map to the map the index denotes, reproduces every result, contains every returned
+       operation and respects real time. *)
+Theorem C04_rollover_linearizable : forall es s, RollLTS.rrun true RollLTS.rinit es = Some s ->
+  exists m, Lin.mrun _ _ _ RollLin.rspec RollLin.rres_eqb (Lin.minit _ _ _ (fun _ => None)) (RollLin.project RollLTS.rinit es) = Some m /\
+    (forall k, Lin.ghost _ _ _ m k = RollLTS.rgmap s k) /\
+    Lin.replay _ _ _ RollLin.rspec RollLin.rres_eqb (fun _ => None) (Lin.lin _ _ _ m) = (Lin.ghost _ _ _ m, true) /\
+    (forall id, In id (Lin.returned _ _ _ m) -> In id (Lin.ids_of _ _ (Lin.lin _ _ _ m))) /\
+    (forall id rs a l1 l2, In (id, rs) (Lin.before _ _ _ m) -> In a rs -> Lin.ids_of _ _ (Lin.lin _ _ _ m) = l1 ++ id :: l2 -> In a l1).
+Proof. exact RollLin.roll_schedules_linearizable. Qed.
+Print Assumptions C04_rollover_linearizable.
 
 (* 10. ... and it is the renewal that does it: a reader that keeps the mapping it made fails on the record
        of a later put (the shape of the seeded changes that drop the remap). *)
